@@ -4,6 +4,8 @@ import StimModel.Model.PauliProp
 import StimModel.Model.Tableau
 import StimModel.Core.Formats
 import StimModel.Core.Bits
+import StimModel.Model.Counts
+import StimModel.Model.Algebra
 /-! Line-protocol dispatcher: one request line in, one answer line out. -/
 namespace Stim.Driver
 open Stim Stim.Wire
@@ -331,6 +333,139 @@ def demCoords (toks : List String) : String :=
       | _, _ => "bad-request"
   | _ => "bad-request"
 
+def ratsEq (a b : List Rat) : Bool :=
+  let n := max a.length b.length
+  (List.range n).all fun i => a.getD i 0 == b.getD i 0
+
+/-- `circ counts <circuit> q m d o t sweep lookback` (the implementation's answers; counts saturate at 2^64-1) -/
+def circCounts (toks : List String) : String :=
+  match parseCircuit toks with
+  | some (c, rest) =>
+    match rest.mapM String.toNat? with
+    | some [q, m, d, o, t, sw, lb] =>
+      let cap (x : Nat) := min x (2^64 - 1)
+      if maxPropList pQubits c != q then s!"count_qubits {maxPropList pQubits c}"
+      else if c.countSat wMeas != m then s!"count_measurements {c.countSat wMeas}"
+      else if c.countSat wDet != d then s!"count_detectors {c.countSat wDet}"
+      else if cap (maxPropList pObs c) != o then s!"count_observables {maxPropList pObs c}"
+      else if c.countSat wTick != t then s!"count_ticks {c.countSat wTick}"
+      else if maxPropList pSweep c != sw then s!"count_sweep_bits {maxPropList pSweep c}"
+      else if maxPropList pLookback c != lb then s!"max_lookback {maxPropList pLookback c}"
+      else "ok"
+    | _ => "bad-request"
+  | none => "bad-request"
+
+/-- `circ shift <circuit> <n> <bits...>` : final_coord_shift -/
+def circShift (toks : List String) : String :=
+  match parseCircuit toks with
+  | some (c, _ :: bits) =>
+    match bits.mapM String.toNat? with
+    | some bs => if ratsEq (coordShiftList c) (bs.map ratOfBits) then "ok" else "final_coord_shift"
+    | none => "bad-request"
+  | _ => "bad-request"
+
+/-- `circ detcoords <circuit> <id> (err | <n> <bits...>)` ; `circ qcoords <circuit> <k> (<qubit> <n> <bits...>)*` -/
+def circDetCoords (toks : List String) : String :=
+  match parseCircuit toks with
+  | some (c, idS :: rest) =>
+    match idS.toNat? with
+    | none => "bad-request"
+    | some id =>
+      let st := c.coords
+      match rest, st.dets[id]? with
+      | ["err"], none => "ok"
+      | ["err"], some _ => "should-have-coords"
+      | _ :: bits, some cs =>
+        (match bits.mapM String.toNat? with
+         | some bs => if bs.map ratOfBits == cs then "ok" else "coords-differ"
+         | none => "bad-request")
+      | _, none => "should-reject"
+      | _, _ => "bad-request"
+  | _ => "bad-request"
+
+def parseQC : Nat → List Nat → Option (List (Nat × List Rat))
+  | 0, [] => some []
+  | 0, _ => none
+  | k+1, q :: n :: rest =>
+    if rest.length < n then none else
+    (parseQC k (rest.drop n)).map fun l => (q, (rest.take n).map ratOfBits) :: l
+  | _, _ => none
+
+def circQCoords (toks : List String) : String :=
+  match parseCircuit toks with
+  | some (c, kS :: rest) =>
+    match kS.toNat?, rest.mapM String.toNat? with
+    | some k, some nums =>
+      match parseQC k nums with
+      | some theirs =>
+        let mine := c.coords.qubits
+        let sorted (l : List (Nat × List Rat)) := l.mergeSort (fun a b => a.1 ≤ b.1)
+        if sorted mine == sorted theirs then "ok" else "qubit-coords-differ"
+      | none => "bad-request"
+    | _, _ => "bad-request"
+  | _ => "bad-request"
+
+/-- parse `k` circuits in a row -/
+def parseCircuits : Nat → List String → Option (List Circuit × List String)
+  | 0, ts => some ([], ts)
+  | k+1, ts => do
+    let (c, rest) ← parseCircuit ts
+    let (cs, rest2) ← parseCircuits k rest
+    pure (c :: cs, rest2)
+
+def verdict (expected result : Circuit) : String := if sameProgram expected result then "ok" else "stream-differs"
+
+/-- `alg <op> ...` : circuit algebra against list operations on the instruction stream -/
+def algCmd (toks : List String) : String :=
+  match toks with
+  | "add" :: rest =>            -- a b result
+    match parseCircuits 3 rest with
+    | some ([a, b, r], []) => verdict (a ++ b) r
+    | _ => "bad-request"
+  | "mul" :: n :: rest =>       -- n a result
+    match parseCircuits 2 rest, n.toNat? with
+    | some ([a, r], []), some k => verdict (if k == 0 then [] else [.rep k "" a]) r
+    | _, _ => "bad-request"
+  | "insert" :: idx :: rest =>  -- idx a b result   (b inserted into a before top-level instruction idx)
+    match parseCircuits 3 rest, idx.toNat? with
+    | some ([a, b, r], []), some i => verdict (a.take i ++ b ++ a.drop i) r
+    | _, _ => "bad-request"
+  | "insertrep" :: idx :: n :: rest =>
+    match parseCircuits 3 rest, idx.toNat?, n.toNat? with
+    | some ([a, b, r], []), some i, some k => verdict (a.take i ++ [.rep k "" b] ++ a.drop i) r
+    | _, _, _ => "bad-request"
+  | "slice" :: start :: step :: len :: rest =>
+    match parseCircuits 2 rest, start.toNat?, step.toInt?, len.toNat? with
+    | some ([a, r], []), some s, some st, some l => verdict (sliceList a s st l) r
+    | _, _, _, _ => "bad-request"
+  | "same" :: rest =>
+    match parseCircuits 2 rest with
+    | some ([a, r], []) => verdict a r
+    | _ => "bad-request"
+  | "demadd" :: rest =>
+    (match parseDem rest with
+     | some (a, r1) => match parseDem r1 with
+       | some (b, r2) => match parseDem r2 with
+         | some (r, []) => if demOpsBeq (a ++ b) r then "ok" else "stream-differs"
+         | _ => "bad-request"
+       | _ => "bad-request"
+     | _ => "bad-request")
+  | "demmul" :: n :: rest =>
+    (match parseDem rest, n.toNat? with
+     | some (a, r1), some k => match parseDem r1 with
+       | some (r, []) =>
+         let expected : Dem := if k == 0 then [] else if k == 1 then a else [.rep k "" a]
+         if demOpsBeq expected r then "ok" else "stream-differs"
+       | _ => "bad-request"
+     | _, _ => "bad-request")
+  | "demslice" :: start :: step :: len :: rest =>
+    (match parseDem rest, start.toNat?, step.toInt?, len.toNat? with
+     | some (a, r1), some s, some st, some l => match parseDem r1 with
+       | some (r, []) => if demOpsBeq (sliceList a s st l) r then "ok" else "stream-differs"
+       | _ => "bad-request"
+     | _, _, _, _ => "bad-request")
+  | _ => "bad-request"
+
 def answer (toks : List String) : String :=
   match toks with
   | "tsim" :: "check" :: rest => tsimCheck rest
@@ -339,6 +474,11 @@ def answer (toks : List String) : String :=
   | "tab" :: rest => tabCmd rest
   | "fmt" :: rest => fmtCmd rest
   | "bits" :: rest => bitsCmd rest
+  | "alg" :: rest => algCmd rest
+  | "circ" :: "counts" :: rest => circCounts rest
+  | "circ" :: "shift" :: rest => circShift rest
+  | "circ" :: "detcoords" :: rest => circDetCoords rest
+  | "circ" :: "qcoords" :: rest => circQCoords rest
   | "dem" :: "check" :: rest => demCheck rest
   | "dem" :: "coords" :: rest => demCoords rest
   | "gate" :: "act" :: rest => gateAct rest
